@@ -72,7 +72,7 @@ def judge_simplify(ctx: Ctx, ev: P.Event, case: Any, nested: bool) -> None:  # n
         if ev.exc != "ValueError":
             return  # other exception types are C14's business
         # (iv) never for a feasible system (interior point with margin); thin systems are band
-        r, w = X.check(X.conj(shrink(src + cx, 1e-3)))
+        r, w = X.check(X.box(names), X.conj(shrink(src + cx, 1e-3)))
         if r == "unknown":
             ctx.inconclusive_case()
         elif r == "sat":
@@ -90,12 +90,13 @@ def judge_simplify(ctx: Ctx, ev: P.Event, case: Any, nested: bool) -> None:  # n
     if bad is not None:
         ctx.violation("not-a-selection", "simplify(%s | %s) returned %s: the term %s is not one of the original "
                       "constraints" % (X.fmt_list(src), X.fmt_list(cx), X.fmt_list(res), bad), case)
-    feas = X.feasible(src + cx)
+    # the numerical reading lives inside the box |v| <= 1000: a system with no behaviour there is not judged
+    feas = X.check(X.box(names), X.conj(src + cx))[0]
     if feas == "unknown":
         ctx.inconclusive_case()
         return
     if feas == "unsat":
-        ctx.count("simplify:returned-on-infeasible")
+        ctx.count("simplify:returned-on-infeasible-or-outside-the-box")
         return
     ctx.count("simplify:returned-on-feasible:" + tag)
     # (ii) meaning
@@ -113,7 +114,9 @@ def judge_simplify(ctx: Ctx, ev: P.Event, case: Any, nested: bool) -> None:  # n
             continue  # constant inequalities are not judged for redundancy
         rest = res[:i] + res[i + 1:]
         margin = X.tol_of(t["k"])
-        r, _ = X.check(X.conj(cx), X.conj(rest), X.lin(t) > X.q(Fraction(t["k"]) - margin))
+        # the hypotheses appear negatively: they get the 1e-7 slack of the numerical reading (simplify itself moves
+        # constants by an ulp - b+1-1 - which can make an exactly opposite pair cross)
+        r, _ = X.check(X.conj(cx, X.SLACK), X.conj(rest, X.SLACK), X.lin(t) > X.q(Fraction(t["k"]) - margin))
         if r == "unknown":
             ctx.inconclusive_case()
         elif r == "unsat":
@@ -158,11 +161,12 @@ def judge_contract_event(ctx: Ctx, ev: P.Event, case: Any) -> None:
                           X.fmt_list(a0), X.fmt_list(g0), X.fmt_list(sc["a"]), X.fmt_list(sc["g"])), case, w)
     # the guarantees are simplified against the assumptions: none of them may be implied with margin by the
     # assumptions and the other guarantees
-    if X.feasible(sc["a"] + sc["g"]) != "sat":
+    if X.check(X.box(names), X.conj(sc["a"]), X.conj(sc["g"]))[0] != "sat":
         return
     for i, t in enumerate(sc["g"]):
         rest = sc["g"][:i] + sc["g"][i + 1:]
-        r, _ = X.check(X.conj(sc["a"]), X.conj(rest), X.lin(t) > X.q(Fraction(t["k"]) - X.tol_of(t["k"])))
+        r, _ = X.check(X.conj(sc["a"], X.SLACK), X.conj(rest, X.SLACK),
+                       X.lin(t) > X.q(Fraction(t["k"]) - X.tol_of(t["k"])))
         if r == "unknown":
             ctx.inconclusive_case()
         elif r == "unsat":
@@ -216,7 +220,7 @@ def run_case(ctx: Ctx, case: Dict[str, Any]) -> None:
 def list_case(rng) -> Dict[str, Any]:  # noqa: C901
     style = gen.pick_style(rng) if rng.random() < 0.85 else "wide"
     fam = rng.choice(["random", "duplicates", "scalings", "combinations", "via_context", "tight", "infeasible",
-                      "random", "near_tight", "no_context", "near_ctx", "varfree"])
+                      "random", "near_tight", "no_context", "near_ctx", "varfree", "equalities"])
     if fam == "varfree":
         # constant inequalities 0 <= k only (what cancelling substitutions leave behind); no LP is involved
         ks = [1.0, 0.0, -0.0, 2.5, -1.0]
@@ -271,6 +275,16 @@ def list_case(rng) -> Dict[str, Any]:  # noqa: C901
             terms += [t, opp]
     elif fam == "no_context":
         ctx_ = None
+    elif fam == "equalities":
+        # exactly opposite pairs (an equality written as two inequalities), as in the repository's own contracts
+        for _ in range(rng.randint(1, 2)):
+            t = gen.rterm(rng, vs, 2, style if style != "int" else rng.choice(["int", "float", "decimal"]))
+            pair = [t, {"c": {v: -c for v, c in t["c"].items()}, "k": -t["k"]}]
+            if ctx_ is not None and rng.random() < 0.3:
+                ctx_ += pair
+            else:
+                pos = rng.randint(0, len(terms))
+                terms[pos:pos] = pair
     elif fam == "near_ctx":
         # a term that is almost, but not quite, one of the context terms (and genuinely tighter somewhere)
         if not ctx_:
